@@ -321,8 +321,37 @@ func runC05(c *Ctx) {
 		// bail-out on '?'
 		g := NewGate(c.P)
 		g.Inline = inlineOnly()
+		g.Unroll, g.ConstTables = true, true // expressions kept in a package-level table and applied in a loop
 		s := g.Eval(regexX)
 		u := g.U
+		// the compiled expressions the heuristic applies, as far as the evaluation resolves them
+		// to regexp.MustCompile(<constant>) of a package initialiser
+		gatePats := map[string]bool{}
+		unresolved := map[string]bool{}
+		scan := func(e *E) {
+			if e == nil {
+				return
+			}
+			for _, x := range u.Collect(e, func(x *E) bool { return x.Op == "call" && x.Aux == "regexp.MustCompile" && len(x.Args) >= 1 }) {
+				if sv, ok := x.Args[0].StrVal(); ok {
+					gatePats[sv] = true
+				} else if x.Args[0].Op == "call" && x.Args[0].Aux == "regexp.QuoteMeta" && len(x.Args[0].Args) == 1 {
+					if sv, ok := x.Args[0].Args[0].StrVal(); ok {
+						gatePats[quoteMeta(sv)] = true
+					}
+				}
+			}
+			for _, x := range u.Collect(e, func(x *E) bool { return x.Op == "gload" }) {
+				unresolved[x.Aux[strings.LastIndex(x.Aux, ".")+1:]] = true
+			}
+		}
+		if len(s.Rets) > 0 {
+			scan(g.RetExpr(s, 0))
+		}
+		for _, ef := range s.Effects {
+			scan(ef.Call)
+			scan(ef.Val)
+		}
 		okQ := false
 		for _, r := range s.Rets {
 			if sv, ok := r.Vals[0].StrVal(); ok && sv == "" {
@@ -342,12 +371,33 @@ func runC05(c *Ctx) {
 		sort.Strings(names)
 		meta := `\^$*+?.()|[]{}`
 		nSplit, nStrip := 0, 0
+		// patterns by name (single variables), plus those reached through a table
+		type namedPat struct{ n, pat string }
+		var pats []namedPat
+		seenPat := map[string]bool{}
 		for _, n := range names {
 			pat, ok := res[n]
 			if !ok {
-				c.Fail("C05.R4", "regex constant "+n, regexX.Pos(), "UNDECIDED: not compiled from a constant")
+				if unresolved[n] || len(gatePats) == 0 {
+					c.Fail("C05.R4", "regex constant "+n, regexX.Pos(), "UNDECIDED: not compiled from a constant")
+				}
 				continue
 			}
+			seenPat[pat] = true
+			pats = append(pats, namedPat{n, pat})
+		}
+		var gp []string
+		for p := range gatePats {
+			gp = append(gp, p)
+		}
+		sort.Strings(gp)
+		for _, p := range gp {
+			if !seenPat[p] {
+				pats = append(pats, namedPat{fmt.Sprintf("%q", p), p})
+			}
+		}
+		for _, np := range pats {
+			n, pat := np.n, np.pat
 			re, err := syntax.Parse(pat, syntax.Perl)
 			if err != nil {
 				c.Fail("C05.R4", "regex constant "+n, regexX.Pos(), "does not parse: "+err.Error())
